@@ -347,3 +347,242 @@ Qed.
 
 Theorem read_full_short : forall chunks k, len (concat chunks) < k -> read_full k chunks = None.
 Proof. intros; unfold read_full; apply read_full_fuel_short; assumption. Qed.
+
+(* ------------------------------------------------------------------ *)
+(* C16.16-18 : Flush with partial writes                               *)
+(* ------------------------------------------------------------------ *)
+
+Lemma err_pending : forall l, negb (len l =? 0) = pending_nonempty (mk_pendingw [] l).
+Proof. intros [|x l]; reflexivity. Qed.
+
+(* one Flush call, all cases at once: it emits n1 header bytes and n2 body
+   bytes, keeps the rest, counts the payload bytes among the n2, and reports
+   an error exactly when something is left *)
+Lemma flush_cases : forall st a1 a2 out nn err st',
+  flush st a1 a2 = (out, nn, err, st') ->
+  exists n1 n2,
+    0 <= n1 <= len (pw_hdr st) /\ 0 <= n2 <= len (pw_body st)
+    /\ out = firstn (Z.to_nat n1) (pw_hdr st) ++ firstn (Z.to_nat n2) (pw_body st)
+    /\ pw_hdr st' = skipn (Z.to_nat n1) (pw_hdr st)
+    /\ pw_body st' = skipn (Z.to_nat n2) (pw_body st)
+    /\ nn = Z.max (len (pw_body st)) mac - Z.max (len (pw_body st')) mac
+    /\ (pw_hdr st' <> [] -> n2 = 0)
+    /\ (1 <= a1 -> pw_hdr st <> [] -> 1 <= n1)
+    /\ (1 <= a2 -> pw_hdr st' = [] -> pw_body st <> [] -> 1 <= n2)
+    /\ err = pending_nonempty st'.
+Proof.
+  intros [h b] a1 a2 out nn err st' H. unfold flush in H. cbn [pw_hdr pw_body] in *.
+  set (n1 := match h with [] => 0 | _ :: _ => offer a1 h end) in H.
+  assert (Hn1 : 0 <= n1 <= len h /\ (1 <= a1 -> h <> [] -> 1 <= n1)).
+  { subst n1. destruct h as [|x h0].
+    - split; [unfold len; cbn [length]; lia | intros _ C; contradiction].
+    - set (hh := x :: h0). unfold offer. pose proof (len_nonneg _ hh).
+      split; [lia|]. intros Ha Hne. apply len_pos in Hne. lia. }
+  destruct Hn1 as [Hn1 Hp1].
+  revert H. destruct (skipn (Z.to_nat n1) h) as [|y h'] eqn:Eh; intro H.
+  - destruct b as [|z b0].
+    + apply quad_inj in H. destruct H as (<- & <- & <- & <-).
+      exists n1, 0. cbn [pw_hdr pw_body]. change (Z.to_nat 0) with 0%nat. cbn [firstn skipn].
+      split; [lia|]. split; [unfold len; cbn [length]; lia|].
+      split; [symmetry; apply app_nil_r|].
+      split; [symmetry; exact Eh|]. split; [reflexivity|]. split; [lia|].
+      split; [reflexivity|]. split; [assumption|].
+      split; [intros _ _ C; contradiction | reflexivity].
+    + set (bb := z :: b0) in *. set (n2 := offer a2 bb) in *.
+      assert (Hbb : 1 <= len bb) by (apply len_pos; discriminate).
+      assert (Hn2 : 0 <= n2 <= len bb /\ (1 <= a2 -> 1 <= n2)) by (subst n2; unfold offer; lia).
+      destruct Hn2 as [Hn2 Hp2].
+      assert (Hl : len (skipn (Z.to_nat n2) bb) = len bb - n2) by (rewrite len_skipn; lia).
+      apply quad_inj in H. destruct H as (<- & <- & <- & <-).
+      exists n1, n2. cbn [pw_hdr pw_body].
+      split; [lia|]. split; [lia|]. split; [reflexivity|].
+      split; [symmetry; exact Eh|]. split; [reflexivity|].
+      split.
+      { rewrite Hl.
+        destruct (Z.ltb_spec mac (len bb)); destruct (Z.leb_spec (len bb - n2) mac);
+          destruct (Z.ltb_spec mac (len bb - n2)); cbn [andb]; lia. }
+      split; [intro C; contradiction C; reflexivity|].
+      split; [assumption|].
+      split; [intros Ha _ _; auto | apply err_pending].
+  - apply quad_inj in H. destruct H as (<- & <- & <- & <-).
+    exists n1, 0. cbn [pw_hdr pw_body]. change (Z.to_nat 0) with 0%nat. cbn [firstn skipn].
+    pose proof (len_nonneg _ b).
+    split; [lia|]. split; [lia|].
+    split; [symmetry; apply app_nil_r|].
+    split; [symmetry; assumption|]. split; [reflexivity|]. split; [lia|].
+    split; [reflexivity|]. split; [assumption|].
+    split; [intros _ C; discriminate C | reflexivity].
+Qed.
+
+(* 16: one call and any sequence of calls conserve the bytes, in order *)
+Lemma flush_step_conservation : forall st a1 a2 out nn err st',
+  flush st a1 a2 = (out, nn, err, st') ->
+  out ++ pw_hdr st' ++ pw_body st' = pw_hdr st ++ pw_body st.
+Proof.
+  intros st a1 a2 out nn err st' H.
+  destruct (flush_cases _ _ _ _ _ _ _ H) as (n1 & n2 & _ & _ & -> & Eh & Eb & _ & Hz & _).
+  rewrite Eb.
+  destruct (pw_hdr st') as [|y h'] eqn:E.
+  - (* the whole header went out *)
+    assert (Hf : firstn (Z.to_nat n1) (pw_hdr st) = pw_hdr st).
+    { rewrite <- (firstn_skipn (Z.to_nat n1) (pw_hdr st)) at 2. rewrite <- Eh. symmetry; apply app_nil_r. }
+    rewrite Hf. cbn [app]. rewrite <- app_assoc, firstn_skipn. reflexivity.
+  - rewrite (Hz ltac:(discriminate)). change (Z.to_nat 0) with 0%nat. cbn [firstn skipn].
+    rewrite app_nil_r, Eh, app_assoc, firstn_skipn. reflexivity.
+Qed.
+
+Lemma flush_all_cons : forall st a1 a2 rest,
+  flush_all st ((a1, a2) :: rest) =
+  let '(out, nn, _, st') := flush st a1 a2 in
+  let '(out', nn', st'') := flush_all st' rest in
+  (out ++ out', nn + nn', st'').
+Proof. reflexivity. Qed.
+
+(* the non-negativity hypothesis is not needed (offer clamps at 0); kept as stated *)
+Lemma flush_conservation_gen : forall accs st out nn st',
+  flush_all st accs = (out, nn, st') ->
+  out ++ pw_hdr st' ++ pw_body st' = pw_hdr st ++ pw_body st.
+Proof.
+  induction accs as [|[a1 a2] accs IH]; intros st out nn st' H.
+  - cbn [flush_all] in H. apply triple_inj in H. destruct H as (<- & _ & <-). reflexivity.
+  - rewrite flush_all_cons in H.
+    destruct (flush st a1 a2) as [[[o1 m1] e1] s1] eqn:E1.
+    destruct (flush_all s1 accs) as [[o2 m2] s2] eqn:E2.
+    apply triple_inj in H. destruct H as (<- & _ & <-).
+    rewrite <- (flush_step_conservation _ _ _ _ _ _ _ E1), <- (IH _ _ _ _ E2), <- app_assoc.
+    reflexivity.
+Qed.
+
+Theorem flush_conservation : forall accs st out nn st',
+  Forall (fun a => 0 <= fst a /\ 0 <= snd a) accs ->
+  flush_all st accs = (out, nn, st') ->
+  out ++ pw_hdr st' ++ pw_body st' = pw_hdr st ++ pw_body st.
+Proof. intros accs st out nn st' _. apply flush_conservation_gen. Qed.
+
+(* 17: the plaintext count.  payload_left = payload bytes of the body not yet
+   emitted (the last `mac` bytes of the body are the tag). *)
+Definition payload_left (st : pendingw) : Z := Z.max (len (pw_body st)) mac - mac.
+
+Lemma flush_step_count : forall st a1 a2 out nn err st',
+  flush st a1 a2 = (out, nn, err, st') ->
+  nn = payload_left st - payload_left st' /\ 0 <= nn /\ len (pw_body st') <= len (pw_body st).
+Proof.
+  intros st a1 a2 out nn err st' H.
+  destruct (flush_cases _ _ _ _ _ _ _ H) as (n1 & n2 & _ & Hn2 & _ & _ & Eb & -> & _).
+  unfold payload_left. rewrite Eb, len_skipn. lia.
+Qed.
+
+Theorem flush_nn_nonneg : forall st a1 a2 out nn err st',
+  flush st a1 a2 = (out, nn, err, st') -> 0 <= nn.
+Proof. intros st a1 a2 out nn err st' H. apply (flush_step_count _ _ _ _ _ _ _ H). Qed.
+
+Lemma flush_all_count : forall accs st out nn st',
+  flush_all st accs = (out, nn, st') ->
+  nn = payload_left st - payload_left st' /\ len (pw_body st') <= len (pw_body st).
+Proof.
+  induction accs as [|[a1 a2] accs IH]; intros st out nn st' H.
+  - cbn [flush_all] in H. apply triple_inj in H. destruct H as (_ & <- & <-). lia.
+  - rewrite flush_all_cons in H.
+    destruct (flush st a1 a2) as [[[o1 m1] e1] s1] eqn:E1.
+    destruct (flush_all s1 accs) as [[o2 m2] s2] eqn:E2.
+    apply triple_inj in H. destruct H as (_ & <- & <-).
+    destruct (flush_step_count _ _ _ _ _ _ _ E1) as (-> & _ & Hl1).
+    destruct (IH _ _ _ _ E2) as (-> & Hl2). lia.
+Qed.
+
+(* general invariant in the form of the statement: nn is the number of emitted
+   body bytes that belong to the payload part *)
+Theorem flush_count_gen : forall accs hdr body out nn st',
+  mac <= len body ->
+  flush_all (mk_pendingw hdr body) accs = (out, nn, st') ->
+  nn = Z.max 0 (Z.min (len body - len (pw_body st')) (len body - mac)).
+Proof.
+  intros accs hdr body out nn st' Hm H.
+  destruct (flush_all_count _ _ _ _ _ H) as (-> & Hl).
+  unfold payload_left. cbn [pw_body] in *. lia.
+Qed.
+
+Theorem flush_count : forall accs hdr body out nn st',
+  Forall (fun a => 0 <= fst a /\ 0 <= snd a) accs -> mac <= len body ->
+  flush_all (mk_pendingw hdr body) accs = (out, nn, st') ->
+  pending_nonempty st' = false -> nn = len body - mac.
+Proof.
+  intros accs hdr body out nn st' _ Hm H Hp.
+  rewrite (flush_count_gen _ _ _ _ _ _ Hm H).
+  assert (Eb : pw_body st' = []).
+  { unfold pending_nonempty in Hp. destruct (pw_hdr st'); destruct (pw_body st'); try discriminate; reflexivity. }
+  rewrite Eb. change (len (@nil wbyte)) with 0. unfold mac in *. lia.
+Qed.
+
+(* 18: with a writer that accepts at least one byte per write, every Flush
+   call strictly reduces what is pending *)
+Theorem flush_progress : forall st a1 a2 out nn err st',
+  1 <= a1 -> 1 <= a2 -> pending_nonempty st = true ->
+  flush st a1 a2 = (out, nn, err, st') ->
+  len (pw_hdr st') + len (pw_body st') < len (pw_hdr st) + len (pw_body st).
+Proof.
+  intros st a1 a2 out nn err st' Ha1 Ha2 Hp H.
+  destruct (flush_cases _ _ _ _ _ _ _ H) as (n1 & n2 & Hn1 & Hn2 & _ & Eh & Eb & _ & _ & Hp1 & Hp2 & _).
+  specialize (Hp1 Ha1). specialize (Hp2 Ha2).
+  assert (Lh : len (pw_hdr st') = len (pw_hdr st) - n1) by (rewrite Eh, len_skipn; lia).
+  assert (Lb : len (pw_body st') = len (pw_body st) - n2) by (rewrite Eb, len_skipn; lia).
+  destruct (pw_hdr st) as [|x h0] eqn:Ehd.
+  - (* no header pending: the body is non-empty and loses n2 >= 1 bytes *)
+    assert (Hb : pw_body st <> []).
+    { unfold pending_nonempty in Hp. rewrite Ehd in Hp. destruct (pw_body st); [discriminate Hp | discriminate]. }
+    assert (Eh' : pw_hdr st' = []) by (rewrite Eh; apply skipn_nil).
+    specialize (Hp2 Eh' Hb). lia.
+  - specialize (Hp1 ltac:(discriminate)). lia.
+Qed.
+
+(* consequence: a Flush loop against such a writer terminates within
+   len hdr + len body calls *)
+Corollary flush_all_terminates : forall accs st out nn st',
+  Forall (fun a => 1 <= fst a /\ 1 <= snd a) accs ->
+  len (pw_hdr st) + len (pw_body st) <= len accs ->
+  flush_all st accs = (out, nn, st') -> pending_nonempty st' = false.
+Proof.
+  induction accs as [|[a1 a2] accs IH]; intros st out nn st' Hacc Hlen H.
+  - cbn [flush_all] in H. apply triple_inj in H. destruct H as (_ & _ & <-).
+    pose proof (len_nonneg _ (pw_hdr st)). pose proof (len_nonneg _ (pw_body st)).
+    unfold len at 3 in Hlen. cbn [length] in Hlen.
+    assert (Eh : pw_hdr st = []) by (apply len_nil_iff; lia).
+    assert (Eb : pw_body st = []) by (apply len_nil_iff; lia).
+    unfold pending_nonempty. rewrite Eh, Eb. reflexivity.
+  - inversion Hacc as [|? ? [Ha1 Ha2] Hacc']; subst. cbn [fst snd] in *.
+    rewrite flush_all_cons in H.
+    destruct (flush st a1 a2) as [[[o1 m1] e1] s1] eqn:E1.
+    destruct (flush_all s1 accs) as [[o2 m2] s2] eqn:E2.
+    apply triple_inj in H. destruct H as (_ & _ & <-).
+    apply (IH _ _ _ _ Hacc') in E2; [assumption|].
+    assert (Hl : len ((a1, a2) :: accs) = len accs + 1) by (unfold len; cbn [length]; lia).
+    destruct (pending_nonempty st) eqn:Hp.
+    + pose proof (flush_progress _ _ _ _ _ _ _ Ha1 Ha2 Hp E1). lia.
+    + (* nothing pending: stays empty *)
+      destruct (flush_cases _ _ _ _ _ _ _ E1) as (n1 & n2 & Hn1 & Hn2 & _ & Eh & Eb & _).
+      assert (Lh : len (pw_hdr s1) <= len (pw_hdr st)) by (rewrite Eh, len_skipn; lia).
+      assert (Lb : len (pw_body s1) <= len (pw_body st)) by (rewrite Eb, len_skipn; lia).
+      assert (Z0 : len (pw_hdr st) = 0 /\ len (pw_body st) = 0).
+      { unfold pending_nonempty in Hp. destruct (pw_hdr st); destruct (pw_body st); try discriminate Hp.
+        split; reflexivity. }
+      pose proof (len_nonneg _ accs). lia.
+Qed.
+
+Print Assumptions grpc_read_step.
+Print Assumptions grpc_read_cap_false.
+Print Assumptions buf_read_step.
+Print Assumptions reads_seq.
+Print Assumptions buf_read_progress.
+Print Assumptions grpc_read_progress_pending.
+Print Assumptions grpc_read_progress_fresh.
+Print Assumptions tcp_write_records_spec.
+Print Assumptions grpc_write_records_none.
+Print Assumptions grpc_write_records_some.
+Print Assumptions read_full_frag.
+Print Assumptions read_full_short.
+Print Assumptions flush_conservation.
+Print Assumptions flush_count_gen.
+Print Assumptions flush_count.
+Print Assumptions flush_nn_nonneg.
+Print Assumptions flush_progress.
+Print Assumptions flush_all_terminates.
